@@ -77,10 +77,13 @@ class World:
         if not small and rng.random() < 0.2:
             # staggered requests with equal keys against a slow peer that never answers the first one: time-outs of
             # sent and of held-back requests overlap with later requests of the same key
-            ncall = rng.choice([3, 4])
+            ncall = rng.choice([2, 3, 4])
             scen.update(callers=[['change-target'] * rng.choice([1, 1, 2]) for _ in range(ncall)], fault='silence-first', fault_at=1,
                         order='slow', peer_delay=rng.choice([3.0, 5.0, 7.0]),
                         start_delays=[0.0] + sorted(rng.choice([1.0, 3.0, 5.0, 8.0, 10.5, 11.0, 12.0, 14.0]) for _ in range(ncall - 1)))
+            if rng.random() < 0.5:
+                # steady traffic: the node streams updates more often than once per second, the receiver is never idle
+                scen['stream'] = rng.choice([0.2, 0.45])
         return scen
 
     # ---------------------------------------------------------------- scripted peer
@@ -185,9 +188,21 @@ class World:
                             if len(held) >= 2:
                                 flush()
 
+        def stream(sock):
+            s = D.CURRENT
+            n = 0
+            while not sock.closed and not sock.peer_closed and s.now < D.T0 + 45:
+                D.vsleep(scen['stream'])
+                n += 1
+                if sock.closed or not sock.peer_send(encode('update', 'm:value', [float(n), {'t': 1.0}])):
+                    break
+                state['streamed'] = state.get('streamed', 0) + 1
+
         def listener(sock):
             t = D.CoThread(target=serve, args=(sock,), name=f'peer{len(self.sockmod.sockets)}')
             t.start()
+            if scen.get('stream'):
+                D.CoThread(target=stream, args=(sock,), name=f'peer-stream{len(self.sockmod.sockets)}').start()
         return listener
 
     # ---------------------------------------------------------------- one run
@@ -306,6 +321,8 @@ class World:
             return
         drop = state['drop_time'] if state['peer_dropped'] else None
         udrop = state['user_drop_time']
+        if state.get('streamed'):
+            r.count('runs_with_steady_update_traffic')
         if state.get('pieces_sent'):
             r.count('replies_sent_in_two_pieces', state['pieces_sent'])
             if (scen.get('pieces') or 0) > 1.0:
@@ -315,6 +332,12 @@ class World:
         if udrop is not None:
             r.count('drops_user')
         first_drop = min([t for t in (drop, udrop) if t is not None], default=None)
+        def earlier_timeout(rec_):
+            """an earlier request with the same key timed out: its reply may still arrive and is then, without message ids,
+            necessarily taken for the reply of the next request with that key (and that one's reply for the one after it)"""
+            return any(v is not rec_ and v['kind'] == rec_['kind'] and v['t_call'] <= rec_['t_call'] and v.get('error', ('',))[0] == 'TimeoutError'
+                       for v in results.values())
+
         for key, rec_ in sorted(results.items()):
             r.count('callers_checked')
             if 't_ret' not in rec_:
@@ -330,9 +353,8 @@ class World:
                       'read-value': action == 'reply' and ident == 'm:value',
                       'ping': action == 'pong' and ident == f'tok{tok}',
                       'unknown': action == 'xyz_reply' and data == tok}[kind]
-                if not ok and scen.get('order') == 'slow' and action == 'changed' and ident == 'm:target' and data and \
-                        any(v.get('tok') == data[0] for v in results.values()) and \
-                        any(v.get('error', ('',))[0] == 'TimeoutError' for v in results.values()):
+                if not ok and action == 'changed' and ident == 'm:target' and data and \
+                        any(v.get('tok') == data[0] for v in results.values()) and earlier_timeout(rec_):
                     # the reply of a request that had already timed out arrived late: without message ids it is taken for
                     # the reply of the next request with the same key, whose own reply then shifts to the one after it
                     # (the value is a real reply to another request of this run) - counted, not judged
@@ -345,7 +367,12 @@ class World:
             else:
                 cls, text = rec_['error']
                 if cls == 'HardwareError':
-                    if f'err-{json.dumps(float(tok) if rec_["kind"] == "change-target" else tok)}' not in text and rec_['kind'] not in ('read-value', 'ping'):
+                    mine = f'err-{json.dumps(float(tok) if rec_["kind"] == "change-target" else tok)}' in text
+                    if not mine and rec_['kind'] not in ('read-value', 'ping') and earlier_timeout(rec_) and \
+                            any(f'err-{json.dumps(float(v["tok"]) if v["kind"] == "change-target" else v["tok"])}' in text for v in results.values() if v['kind'] == rec_['kind']):
+                        r.count('late_replies_taken_for_the_next_equal_request')     # the same, for a late error reply
+                        continue
+                    if not mine and rec_['kind'] not in ('read-value', 'ping'):
                         r.violation('C11/wrong-error-reply', f'caller {key} token {tok} got the error {text!r}', case)
                         return
                     r.count('replies_matched')
@@ -360,6 +387,18 @@ class World:
                     # pieces with a pause): the time-out legitimately includes queueing on both sides.  Judged only if the
                     # whole reply was on the wire at least half a second before the caller's deadline
                     want = float(tok) if rec_['kind'] == 'change-target' else tok
+                    # a request that never reached the peer must have been held back by another request with the same key that
+                    # was outstanding at some time of the wait - not by one whose caller had long given up
+                    seen = [t for t, a, i, pl in state['requests_seen'] if pl == want or i == f'tok{tok}']
+                    if not seen and first_drop is None and rec_['kind'] != 'read-value' and scen['fault'] in ('none', 'silence-first', 'error-replies'):
+                        # (fault 'silence': the peer would not have answered it either - whether it was sent is not observable)
+                        r.count('unsent_requests_examined')
+                        others = [k2 for k2, v in results.items() if k2 != key and v['kind'] == rec_['kind']
+                                  and v['t_call'] < rec_['t_ret'] and v.get('t_ret', 1e99) > rec_['t_call']]
+                        if not others:
+                            r.violation('C11/request-never-sent', f'caller {key} ({rec_["kind"]}) timed out after {dt:.2f} s, its request never reached the peer '
+                                        f'and no other request with the same key was outstanding during its wait', case)
+                            return
                     done = [t for t, a, i, pl in state['replied'] if pl == want or i == f'tok{tok}']
                     late = not done or done[0] + 0.5 > rec_['t_call'] + TIMEOUT
                     if not silenced and first_drop is None and late:
